@@ -39,6 +39,37 @@ LIMITS = [1, 2, 7, 64, 1000, 10000]
 STALL_BOUND = 120.0
 
 _inv = {'evals': 0, 'bad': []}
+SPIN_BOUND = 50000     # wake-ups of one take_tokens call (logical steps, not wall clock)
+
+
+class _Spin(Exception):
+    pass
+
+
+_spin = {'task_counts': {}, 'installed': False}
+
+
+def _install_spin_counter():
+    """Counts the sleeps of each take_tokens call: a call that wakes up SPIN_BOUND times without
+    returning makes no progress in logical steps (a Zeno loop does not advance virtual time either)."""
+    if _spin['installed']:
+        return
+    import types
+    import aioslsk.network.rate_limiter as rl
+    proxy = types.ModuleType('asyncio_spin_proxy')
+    proxy.__dict__.update({k: v for k, v in asyncio.__dict__.items() if not k.startswith('__')})
+    real_sleep = asyncio.sleep
+
+    async def sleep(delay, result=None):
+        task = asyncio.current_task()
+        n = _spin['task_counts'].get(task, 0) + 1
+        _spin['task_counts'][task] = n
+        if n > SPIN_BOUND:
+            raise _Spin()
+        return await real_sleep(delay, result)
+    proxy.sleep = sleep
+    rl.asyncio = proxy
+    _spin['installed'] = True
 _contract_installed = False
 
 
@@ -164,7 +195,9 @@ def _run_limiter(params: dict) -> dict:
     res = runner.new_result(params['case'])
     rng = random.Random(f"{params['seed']}:C20:L:{params['i']}")
     _install_contract()
+    _install_spin_counter()
     install_time_shims()
+    _spin['task_counts'].clear()
     _inv['evals'] = 0
     _inv['bad'] = []
 
@@ -224,7 +257,15 @@ def _run_limiter(params: dict) -> dict:
                 started_limit = cur['kbps']
                 t0, it0 = loop.time(), loop.iterations
                 state['open_calls'][k] = (t0, started_limit)
-                nbytes = await lim_obj.take_tokens()
+                _spin['task_counts'][asyncio.current_task()] = 0
+                try:
+                    nbytes = await lim_obj.take_tokens()
+                except _Spin:
+                    state['spins'] = state.get('spins', 0) + 1
+                    state['spin_detail'] = {'limit_kbps': started_limit, 'bucket': lim_obj.bucket, 'consumers': n_cons,
+                                            'waited_virtual': round(loop.time() - t0, 6)}
+                    state['open_calls'].pop(k, None)
+                    return
                 t1, it1 = loop.time(), loop.iterations
                 state['open_calls'].pop(k, None)
                 seqc[0] += 1
@@ -288,6 +329,14 @@ def _run_limiter(params: dict) -> dict:
         for t in pending:
             t.cancel()
         await asyncio.gather(*pending, return_exceptions=True)
+        if state.get('spins'):
+            d = state['spin_detail']
+            if d['waited_virtual'] < SPIN_BOUND * 0.01 * 0.2:
+                # woke up far more often than the 10 ms polling interval allows and still did not return
+                runner.violation(res, 'stall:take_tokens-spins-without-progress', wakeups=SPIN_BOUND, **d)
+            elif jitter > 0 and d['limit_kbps'] > 0:
+                runner.violation(res, 'stall:take_tokens-slow', waited=d['waited_virtual'], limit_kbps=d['limit_kbps'],
+                                 consumers=n_cons, pattern=pattern)
 
     try:
         loop.run_main(main(), wall_timeout=60)
